@@ -1496,7 +1496,7 @@ struct array : static_array<T, D, Alloc> {
 		}
 		auto const is = intersection(this->extensions(), extensions);
 		if(is.num_elements() != 0) {  // nothing in common (e.g. an empty side): do not slice a storage-less array
-			tmp.apply(is) = this->apply(is);  // TODO(correaa) : use (and implement) `.move();`
+			tmp.apply(is).elements() = this->apply(is).elements();  // element by element: the two blocks may carry different index bases  // TODO(correaa) : use (and implement) `.move();`
 		}
 		this->destroy();
 		this->deallocate();
@@ -1529,7 +1529,7 @@ struct array : static_array<T, D, Alloc> {
 		this->uninitialized_fill_n(tmp.data_elements(), static_cast<typename multi::allocator_traits<typename array::allocator_type>::size_type>(tmp.num_elements()), elem);
 		auto const is = intersection(this->extensions(), exs);
 		if(is.num_elements() != 0) {  // nothing in common (e.g. an empty side): do not slice a storage-less array
-			tmp.apply(is) = this->apply(is);
+			tmp.apply(is).elements() = this->apply(is).elements();  // element by element: the two blocks may carry different index bases
 		}
 		this->destroy();
 		this->deallocate();
